@@ -26,6 +26,10 @@ class ParallelEvaluator(Evaluator):
         from pathos.multiprocessing import ProcessingPool as Pool  # pyright: ignore
 
         if indivs:
+            for ind in indivs:
+                # mapped here, once: a worker that maps its own copy may derive another program than this individual
+                # has afterwards (dynamic SGE draws the genes it lacks while mapping)
+                ind.get_phenotype()
             with Pool(len(indivs)) as pool:
                 fitnesses = pool.map(mapper, indivs)
             for i, f in zip(indivs, fitnesses):
